@@ -5,6 +5,7 @@ uint64/int64 values are bit patterns `< M64`; sequences of every length.
 -/
 import InfluxVerif.Lemmas.Time
 import InfluxVerif.Lemmas.Wal
+import InfluxVerif.Lemmas.Float
 import InfluxVerif.Gen.C13
 
 namespace InfluxVerif.Codec
@@ -282,6 +283,46 @@ example : growRead (2 ^ 20) 4098 4294967295 37 0 0 = (37, 1048576) := by decide
 
 theorem gen_wal_entry_types : Gen.C13.walEntryTypes = [1, 2, 3] ∧ Gen.C13.blockTypes = [0, 1, 2, 3, 4] := by decide
 
+/-! ### float blocks (Gorilla XOR compression over a bit stream) -/
+
+open InfluxVerif.Codec.Float in
+/-- **Float blocks round-trip bit for bit**: every sequence of float64 bit patterns the encoder
+accepts — every length, every value that is not a NaN: both zeros, denormals, infinities,
+deltas with no leading or trailing zero bit (the 64-significant-bit case the header cannot
+spell), windows reused or reset — decodes to exactly the same patterns, through the packing
+into bytes with its zero padding. -/
+theorem float_roundtrip (vs : List Nat) (b : Bytes) (hr : ∀ v ∈ vs, v < M64)
+    (h : Float.encode vs = some b) : Float.decode b = some vs := by
+  unfold Float.encode at h
+  split at h
+  · exact absurd h (by simp)
+  · rename_i hn
+    simp only [Option.some.injEq] at h
+    subst h
+    have hvs : ∀ v ∈ vs, v < M64 ∧ v ≠ uvnan := by
+      intro v hv
+      refine ⟨hr v hv, ?_⟩
+      intro he
+      apply hn
+      rw [List.any_eq_true]
+      exact ⟨v, hv, by rw [he]; exact isNaN_uvnan⟩
+    obtain ⟨k, hk⟩ := Float.unpack_pack (encodeBits vs)
+    simp only [Float.decode, hk]
+    exact decodeBits_encodeBits vs _ hvs
+
+open InfluxVerif.Codec.Float in
+/-- the encoder refuses exactly the sequences holding a NaN (the sentinel cannot be stored) -/
+theorem float_encode_total (vs : List Nat) : (Float.encode vs).isSome = !vs.any isNaN := by
+  unfold Float.encode
+  split <;> simp_all
+
+open InfluxVerif.Codec.Float in
+/-- an empty block decodes to nothing, and so does the empty byte string -/
+theorem float_empty : Float.decode [] = some [] ∧ (Float.encode []).bind Float.decode = some [] := by
+  constructor
+  · rfl
+  · decide
+
 /-! ### Non-vacuity (each scheme is reached by a concrete input) -/
 
 example : intEncode [5, 7, 9, 11] = some [32, 0,0,0,0,0,0,0,10, 4, 3] := by decide
@@ -293,6 +334,13 @@ example : (timeEncode [1000, 2000, 3500]).map (·.headD 99) = some (16 + 2) := b
 example : (timeEncode [0, 5, 2305843009213693952]).map (·.headD 99) = some 0 := by decide
 example : timeDecode [35, 0,0,0,0,0,0,3,232, 1, 3] = some [1000, 2000, 3000] := by decide
 example : s8bEncodeStream (List.replicate 240 1) = some [0] := by decide +kernel
+-- floats: 1.0, 2.0, 2.0 (repeat), 3.0 (window reused), 1.0000000000000002 (window reset)
+example : Float.encode [0x3FF0000000000000, 0x4000000000000000, 0x4000000000000000, 0x4008000000000000, 0x3FF0000000000001]
+    = some [16, 63, 240, 0, 0, 0, 0, 0, 0, 194, 95, 255, 108, 7, 135, 255, 255, 0, 0, 0, 0, 0, 0, 52, 0, 128, 0, 0, 0, 0, 0, 0] := by
+  decide +kernel
+-- a delta with 64 significant bits (header spells 0) comes back
+example : (Float.encode [0x8000000000000001, 0x0000000000000000, 0x8000000000000001]).bind Float.decode
+    = some [0x8000000000000001, 0, 0x8000000000000001] := by decide +kernel
 example : (walReplay (fun _ _ => true) 3 ((segmentBytes [⟨1, [9, 9]⟩, ⟨2, [7]⟩]).take 8)) = ([⟨1, [9, 9]⟩], 7) := by decide
 
 end InfluxVerif.Codec
